@@ -7,6 +7,7 @@ reference.  Oracle: mc.ref.r_propagate (the statement transcribed, keyed by conf
 import math
 import itertools
 import operator
+import cmath
 import numpy as np
 from mc import engine, alpha, ref, compare
 from mc.engine import Acc
@@ -141,9 +142,11 @@ def build_operand(pe, s, tier, key, mean, sigma=0.05):
 
 # ------------------------------------------------------------------ reference for complex-capable binary ops
 def c_binop(op, za, zb):
-    f = {'+': lambda a, b: a + b, '-': lambda a, b: a - b, '*': lambda a, b: a * b, '/': lambda a, b: a / b}[op]
+    f = {'+': lambda a, b: a + b, '-': lambda a, b: a - b, '*': lambda a, b: a * b, '/': lambda a, b: a / b,
+         '**': lambda a, b: a ** b}[op]
     g = {'+': lambda a, b: (1, 1), '-': lambda a, b: (1, -1), '*': lambda a, b: (b, a),
-         '/': lambda a, b: (1 / b, -a / (b * b))}[op]
+         '/': lambda a, b: (1 / b, -a / (b * b)),
+         '**': lambda a, b: (b * a ** (b - 1), a ** b * cmath.log(a))}[op]
     return f(za, zb), g(za, zb)
 
 
@@ -335,6 +338,9 @@ def run_construct(pe, acc, tier, case):
 
 def _ops_for(sa, sb):
     ca, cb = is_complex_spec(sa), is_complex_spec(sb)
+    real_obs = lambda s: s['t'] in ('obs', 'obscov', 'cov', 'multi')
+    if (ca and sa['t'] == 'num' and real_obs(sb)) or (cb and sb['t'] == 'num' and real_obs(sa)):
+        return ['+', '-', '*', '/', '**']      # real observable ** complex number and complex number ** real observable
     if ca or cb or sa['t'] == 'cobs' or sb['t'] == 'cobs':
         return ['+', '-', '*', '/']
     if sa['t'] == 'arr' or sb['t'] == 'arr':
